@@ -647,13 +647,19 @@ def write_evidence(pid, prop, tier, seed, results, violations, known_hits, incon
                 "wall_s": r["wall_s"],
             }
         )
-    for r in results[:6]:
+    def _user_level(c):
+        d = c["description"]
+        return d.startswith("assertion failed") or d.startswith("\"") or c["status"] in ("SATISFIED", "UNSATISFIABLE")
+    for r in results[:8]:
+        user = [c for c in r["parsed"]["checks"] if is_repo_loc(c) and _user_level(c)]
         samples.append(
             {
                 "harness": r["harness"],
                 "what": r["what"],
                 "status": r["status"],
-                "example_checks": [c["description"] for c in r["parsed"]["checks"] if is_repo_loc(c)][:5],
+                "assertions_decided_for_all_inputs_in_bounds": [c["description"] for c in user if c["status"] == "SUCCESS"][:8],
+                "cover_witnesses": [c["description"] + " -> " + c["status"] for c in user if c["status"] in ("SATISFIED", "UNSATISFIABLE")][:8],
+                "failed": [c["description"] for c in r["parsed"]["checks"] if c["status"] == "FAILURE"][:5],
             }
         )
     if not samples:
